@@ -1457,9 +1457,52 @@ func (s *sim) scriptConflictInsideReady() {
 	s.stats["scripted-prologue"]++
 }
 
+// scriptJointSplit (joint profiles, five nodes) builds, with ordinary events only, a joint configuration whose halves have DIFFERENT quorums and lets
+// only one half answer.  (1 2 3) at the start; leader 1 is given JointExplicit [add 4, add 5, remove 2]: (1 3 4 5)&&(1 2 3), applied everywhere.
+// Then 2 and 3 are cut off.  A proposal is acknowledged by 4 and 5 - a majority of the incoming half, not of the outgoing one: it must NOT be
+// committed.  Node 4 campaigns: 5 and 1 grant - again a majority of the incoming half only: it must NOT win.  The partition is healed and the
+// schedule continues at random (the votes of 2 and 3 and the acknowledgements are still on their way).
+func (s *sim) scriptJointSplit() {
+	any := func(pb.Message) bool { return true }
+	s.doCampaign(0)
+	s.settle(any)
+	if s.bad || s.nodes[0].rn.BasicStatus().RaftState != raft.StateLeader {
+		return
+	}
+	nd := s.nodes[0]
+	cc := pb.ConfChangeV2{Transition: pb.ConfChangeTransitionJointExplicit, Changes: []pb.ConfChangeSingle{
+		{Type: pb.ConfChangeAddNode, NodeID: 4}, {Type: pb.ConfChangeAddNode, NodeID: 5}, {Type: pb.ConfChangeRemoveNode, NodeID: 2}}}
+	s.stats["confchangev2-"+v2Kind(cc)]++
+	s.event("confchange", 0, func() []string {
+		err := nd.rn.ProposeConfChange(cc)
+		if err != nil && !errors.Is(err, raft.ErrProposalDropped) {
+			panic(fmt.Sprintf("harness: ProposeConfChange(v2): %v", err))
+		}
+		return []string{s.propsInput(nd, []pb.Entry{v2Entry(cc)}, err)}
+	})
+	s.settle(any) // replicated, committed under (1 2 3), applied; 4 and 5 catch up and apply it too
+	if s.bad || len(nd.rn.Status().Config.Voters[1]) == 0 || len(s.nodes[3].rn.Status().Config.Voters[1]) == 0 {
+		return
+	}
+	s.group[1], s.group[2] = 1, 1 // ids 2 and 3 hear nothing from now on
+	s.doPropose(0)
+	s.settle(any) // acknowledged by 4 and 5 only
+	if s.bad {
+		return
+	}
+	s.doCampaign(3) // id 4, a voter of the incoming half only
+	s.settle(any)   // granted by 5 and 1 only
+	for i := range s.group {
+		s.group[i] = 0
+	}
+	s.stats["scripted-joint-split"]++
+}
+
 func (s *sim) run(events int) {
 	if s.prof.script && s.n == 5 {
 		s.scriptConflictInsideReady()
+	} else if s.prof.joint && s.n == 5 && s.rng.Intn(2) == 0 {
+		s.scriptJointSplit()
 	} else if s.rng.Float64() < 0.7 {
 		s.doCampaign(s.rng.Intn(s.n))
 	}
